@@ -1177,7 +1177,23 @@ def gen_kv(seed, n, start_id=0):
             elif x < 0.92 and open_batches:
                 b = r.choice(open_batches)
                 y = r.random()
-                if y < 0.5:
+                if y < 0.12:
+                    # several operations on ONE key inside one batch, in either order, on a key that may be stored
+                    # already: the batch applies them in order, the last one wins
+                    k = key()
+                    if r.random() < 0.5:
+                        lines.append("kset %s %s" % (enc(k), enc(val())))
+                    seq = r.choice([("s", "d"), ("d", "s"), ("s", "d", "s"), ("s", "s"), ("d", "d")])
+                    for o in seq:
+                        if o == "s":
+                            lines.append("kbset %s %s %s" % (b, enc(k), enc(val())))
+                        else:
+                            lines.append("kbdel %s %s" % (b, enc(k)))
+                    if r.random() < 0.7:
+                        lines.append("kbwrite %s" % b)
+                        lines.append("kget %s" % enc(k))
+                        lines.append("kiter - -")
+                elif y < 0.5:
                     lines.append("kbset %s %s %s" % (b, enc(key()), enc(val())))
                 elif y < 0.7:
                     lines.append("kbdel %s %s" % (b, enc(key())))
